@@ -651,3 +651,47 @@ def gen_shared_op_net(rnd):
         edges.append([f'{s_}/cop/x', f'{t_}/cop/inp', None, {'weight': vals.new()}])
     spec = {'ops': ops, 'node_types': node_types, 'edge_types': {}, 'circ': {'name': 'top', 'nodes': nodes, 'subs': {}, 'edges': edges}}
     return individualize(spec, rnd, params=rnd.choice(['different', 'different', 'equal']), vals=vals)
+
+
+def gen_fanout_net(rnd, n_target_types=None):
+    """One source node type (1-3 nodes, state x) whose variable x projects to the nodes of three or four DIFFERENT target node types
+    (1-3 nodes each): in a vectorized build the edges leaving the (merged) source variable form one edge group per target type.
+    Edges carry no attributes other than a weight; callers add delays.  Returns a spec."""
+    vals = Vals(rnd)
+    ops = {'sop': {'eqs': [['de', 'x', ['add', ['neg', ['mul', ['var', 'a'], ['var', 'x']]],
+                                       ['mul', ['num', round(rnd.uniform(0.5, 1.5), 3)], ['call', 'sin', ['mul', ['num', round(rnd.uniform(1.0, 3.0), 3)], ['var', 'x']]]]]]],
+                   'vars': {'x': ['out', vals.new()], 'a': ['const', vals.new()]}}}
+    node_types = {'src': {'ops': ['sop'], 'over': {}}}
+    nt = n_target_types or rnd.choice([3, 3, 4])
+    for ti in range(nt):
+        f = ['tanh', 'sin', 'sigmoid', 'cos'][ti % 4]
+        ops[f'top{ti}'] = {'eqs': [['de', 'r', ['add', ['add', ['neg', ['mul', ['var', 'b'], ['var', 'r']]], ['var', 'inp']],
+                                              ['mul', ['num', round(rnd.uniform(0.2, 0.9), 3)], ['call', f, ['var', 'r']]]]]],
+                           'vars': {'r': ['out', vals.new()], 'b': ['const', vals.new()], 'inp': ['in', 0.0]}}
+        node_types[f'tg{ti}'] = {'ops': [f'top{ti}'], 'over': {}}
+    labels = ['a0', 'a1', 'a2', 'b0', 'b1', 'b2', 'c0', 'c1', 'c2', 'd0', 'd1', 'd2', 'e0', 'e1', 'e2']
+    nodes = {}
+    srcs = [f'a{i}' for i in range(rnd.choice([1, 2, 2, 3]))]
+    for lab in srcs:
+        nodes[lab] = 'src'
+    tgs = []
+    for ti in range(nt):
+        grp = [f'{"bcde"[ti]}{i}' for i in range(rnd.choice([1, 1, 2, 3]))]
+        for lab in grp:
+            nodes[lab] = f'tg{ti}'
+        tgs.append(grp)
+    if rnd.random() < 0.5:
+        items = list(nodes.items())
+        rnd.shuffle(items)
+        nodes = dict(items)
+    edges = []
+    for ti, grp in enumerate(tgs):
+        chosen = False
+        for t_ in grp:
+            for s_ in srcs:
+                if rnd.random() < 0.6 or (not chosen and (t_, s_) == (grp[-1], srcs[-1])):
+                    edges.append([f'{s_}/sop/x', f'{t_}/top{ti}/inp', None, {'weight': vals.new()}])
+                    chosen = True
+    rnd.shuffle(edges)
+    spec = {'ops': ops, 'node_types': node_types, 'edge_types': {}, 'circ': {'name': 'top', 'nodes': nodes, 'subs': {}, 'edges': edges}}
+    return individualize(spec, rnd, params=rnd.choice(['different', 'equal']), vals=vals)
